@@ -55,6 +55,7 @@ DIRECTED = [
     ("lock-order", "mutex 2\nactor L0 L1 U1 U0\nactor L1 L0 U0 U1\n", []),
     ("independent", "mutex 2\nactor L0 O0 U0\nactor L1 O1 U1\n", [("BeFS", 2)]),
     ("sem-handover", "sem 0 1b\nactor P0 P1 o1 V1\nactor P1 o1 V1 V0\n", []),
+    ("barrier-1", "barrier 1\nactor R0 R0\nactor R0 R0\n", []),
     ("barrier-2of3", "mutex 1\nbarrier 2\nactor R0 L0 O0 U0\nactor R0 L0 O0 U0\nactor L0 O0 U0\n", []),
     ("create-join", "mutex 1\nactor K2 L0 O0 U0 J2\nactor L0 O0 U0\ndyn L0 O0 U0\n", []),
     ("async-wait", "mbox 2\nactor s0.1 s1.2 c1 c0\nactor r1 r0 c0 c1\n", []),
